@@ -34,7 +34,7 @@ def main():
             'evidence_file': 'evidence/%s.json' % pid,
             'replay_cmd_template': 'python3 tools/replay.py {path}',
             'engine': 'cbmc-contracts',
-            'level_claimed': {'category': 'proof', 'text': c['text'], 'design_ref': c.get('design_ref', 'DESIGN.md section 4, ' + pid)},
+            'level_claimed': {'category': c.get('category', 'proof'), 'text': c['text'], 'design_ref': c.get('design_ref', 'DESIGN.md section 4, ' + pid)},
             'level_note': c['note'],
             'technique': c.get('technique', 'CBMC code contracts (DFCC) enforced on the real C functions, SAT back end'),
         })
